@@ -58,6 +58,14 @@ TABLE = [
      'indices x library lengths moving the name across 240..260 (thorough 225..280); the pure codec on all 94 chars and all 8836 pairs. '
      'Decoded BC/bc/bi/RX/RQ/LY/MX/aa/aA/Is/RN/Fc/La/Ti/CX/CY, SM and MI are compared with what was encoded; over-long names must be refused.',
      'MI/SM only demanded when the encoder produced the fields they derive from; qualities above the top letter saturate by design.'),
+    ('C19',
+     'fault enumeration / deviation-bounded exploration of the real HandleLimiter and FastqHandle over an in-memory file store with a descriptor budget: every write word x limiter setting x fault plan (EMFILE budgets, every placement of <=2 transient open failures, permanent path failure)',
+     'All write sequences (up to path renaming) of length <=7 (thorough <=9, and 4 paths <=7) over 3 paths x maxHandles 1..4 x pruneEvery '
+     '{1,2,3,4,10000} x gzip/plain x fault plans: none, EMFILE when >=k descriptors are open (k=1..3), every set of <=2 failing open() calls '
+     '(placements discovered from the execution, deviation bound 2), one permanently failing path; plus FastqHandle(single_cell=True) words and a '
+     '200-path sweep. Oracle: per-path log of acknowledged payloads vs gunzipped content of every file; a raise is legitimate only if the '
+     'failing open happened with no other descriptor open.',
+     'The OS is an in-memory store: only open() fails, and only as injected; after a legitimate raise the run stops.'),
 ]
 
 # id -> reason it is currently not claimed
